@@ -33,8 +33,9 @@ PROPS = {
                  "c08_overflow_direction_partial: proved at f64_from_parts (rejected => exact >= 2^1024-2^970-2^972; exact >= "
                  "2^1024+2^972 => rejected); missing: lift through digit dropping and the parse_exponent_overflow path; "
                  "'every value >= 2^1024 is rejected' is FALSE on the pinned code (known finding C08-F1)",
-                 "c08_underflow_zero_partial: proved for exponent < -616 (and for every zero significand); missing: the band "
-                 "10^-598 .. 2^-1075",
+                 "c08_underflow_zero_partial: proved at f64_from_parts for every exponent (exact value <= 2^-1076 => +-0, and "
+                 "every zero significand => +-0); missing: the lift to literals with dropped digits; values in "
+                 "(2^-1076, 2^-1075) may legitimately give the least subnormal (1 ulp)",
                  "c08_f32_once: holds for float-path literals and integers below 2^53; FALSE for u64/i64-path integers above "
                  "2^53 (serde casts the integer directly; known finding C08-F2, kernel-checked counterexample "
                  "c08_f32_once_fails_on_large_int)"],
